@@ -16,7 +16,7 @@ def run(tier, seed, verdict):
     quick = tier != "thorough"
     run_ = mr.ModelRun("MC_C03_quick.cfg" if quick else "MC_C03.cfg", seed,
                        probes=("dead_ids", "lookups", "reopen", "lookups"), name_pools=[0, 1, 2, 3, 4, 5],
-                       stride=3 if quick else 1).run()
+                       stride=3 if quick else 2).run()
     tlc = run_.res
     if tlc.violation is not None:
         verdict.violation("tlc/" + tlc.violation[:80], {"tlc": tlc.violation, "trace": tlc.error_trace[:60]})
